@@ -2,8 +2,14 @@
   C08 — bias switches and apply-probabilities behave as documented.
   All theorems hold for every number type (only the decidable `<` of `Num` is used), every
   bias implementation `apply`, every list length and every stream of draws.
+  The last sections (END TO END) restate them on the model of the whole `MakeDecision` (`decideWith` /
+  `Rdm.decide`): every request, every method, the six real biases.
 -/
 import Rdm.Model.Pipeline
+import Rdm.Lemmas.E2EService
+import Rdm.Lemmas.E2EServiceRequest
+import Rdm.Lemmas.E2EExamples
+import Rdm.Lemmas.E2EServiceExamples
 namespace Rdm.Props.C08
 open Rdm
 
@@ -158,5 +164,480 @@ theorem default_probability_is_one :
 /-- the constants this property depends on were re-read from the working tree on this run (none of
     them fell back to its pinned value because its declaration could not be located) -/
 theorem facts_fresh : (Facts.staleFacts.all fun n => !["defaultApplyProbability"].contains n) = true := by decide
+
+/-! ## END TO END: the switches and probabilities on whole requests (`decideWith` / `Rdm.decide`)
+
+The theorems above are about `ChooseBiases` and the loop of `processBiases` with an abstract `apply`.  The ones
+below are about the whole `MakeDecision` (model `decideWith` of Model/Decide.lean): validation, `prepareParams`,
+`ChooseBiases`, the loop over the six real biases, `Evaluate` of any of the seven methods — for every request,
+every method, every bias list, every stream function `g`, no bounds.  Helper lemmas:
+`Rdm/Lemmas/E2EService.lean` (the loop: pattern, failure, erasure), `Rdm/Lemmas/E2EServiceRequest.lean`
+(`ChooseBiases` / `prepare` characterised exactly, request-level readings).
+
+Vocabulary (definitions in Lemmas/E2EService.lean, spelled out by `vocabulary_spelled_out`):
+  `e2esEnabled req`  the entries of `req.biases` that are not disabled, in request order;
+  `e2esProb b`       the probability entry `b` runs with: `applyProbability`, or the code's default when omitted;
+  `e2esProbs req`    the probabilities of the enabled entries;
+  `e2esFlags outs`   the fired flags (`props ≠ null`) of a response's `biases` list;
+  `e2esPattern ps us` position by position `u < p`. -/
+
+section EndToEnd
+variable {exp exp₁ exp₂ : α → α} {o o₁ o₂ : List (WCrit α) → List (WCrit α)}
+
+theorem vocabulary_spelled_out (req : Request α) (outs : List (BiasOut α (Report α))) (ps us : List α) :
+    e2esEnabled req = req.biases.filter (fun b => !b.disabled) ∧
+    e2esProbs req = (req.biases.filter (fun b => !b.disabled)).map
+      (fun b => b.prob.getD (Num.ofConst Facts.defaultApplyProbability)) ∧
+    e2esFlags outs = outs.map (fun o => o.report.isSome) ∧
+    e2esPattern ps us = List.zipWith (fun p u => decide (u < p)) ps us :=
+  ⟨rfl, rfl, rfl, rfl⟩
+
+/-! ### (e) one entry per enabled bias, name and (defaulted) probability echoed; fired iff draw < probability -/
+
+/-- **N1(e)** the response's `biases` list has one entry per enabled request entry, in request order, and each
+    carries the name and the (defaulted) probability of its request entry -/
+theorem response_echoes_the_probability {req : Request α} {g : Int → Draws α} {resp : Response α}
+    (h : decideWith exp o req g = .ok resp) :
+    resp.biases.length = (e2esEnabled req).length ∧
+    resp.biases.map (·.name) = (e2esEnabled req).map (·.name) ∧
+    resp.biases.map (·.prob) = e2esProbs req := by
+  obtain ⟨params, _, hrun, _⟩ := e2es_decide_run h
+  have hecho := e2e_loop_echo _ _ _ _ _ _ hrun
+  have hlen := e2eb_loop_length _ _ _ _ _ hrun
+  refine ⟨by simpa using hlen, ?_, ?_⟩
+  · have := congrArg (List.map Prod.fst) hecho
+    simpa [List.map_map, Function.comp_def, e2esChosen] using this
+  · have := congrArg (List.map Prod.snd) hecho
+    simpa [List.map_map, Function.comp_def, e2esChosen, e2esProbs] using this
+
+/-- **`process_entries` on the response of `MakeDecision`**, in terms of the request alone: the `i`-th enabled
+    entry `b` of the request is answered by the `i`-th entry of `resp.biases`: same name, probability
+    `e2esProb b`, and it carries a report iff the `i`-th number of the `biasApplyRandomSeed` stream is below
+    that probability -/
+theorem response_entry_fires_iff_draw_below_probability {req : Request α} {g : Int → Draws α}
+    {resp : Response α} (h : decideWith exp o req g = .ok resp) (i : Nat) (b : BiasReq α (BProps α))
+    (hb : (e2esEnabled req)[i]? = some b) :
+    ∃ out u, resp.biases[i]? = some out ∧ (g req.biasSeed)[i]? = some u ∧
+      out.name = b.name ∧ out.prob = e2esProb b ∧ out.report.isSome = decide (u < e2esProb b) :=
+  (e2es_decide_entries h).2 i b hb
+
+/-- the same through `process_entries` itself (the C08 theorem about the loop), for the list `ChooseBiases`
+    returned -/
+theorem response_entries_through_process_entries {req : Request α} {g : Int → Draws α} {resp : Response α}
+    (h : decideWith exp o req g = .ok resp) :
+    ∃ chosen, chooseBiases availableBiases req.biases = .ok chosen ∧
+      chosen.length = (req.biases.filter (!·.disabled)).length ∧ resp.biases.length = chosen.length ∧
+      ∀ i (hi : i < resp.biases.length) (hc : i < chosen.length) (hd : i < (g req.biasSeed).length),
+        resp.biases[i].name = chosen[i].name ∧ resp.biases[i].prob = chosen[i].prob ∧
+          resp.biases[i].report.isSome = decide ((g req.biasSeed)[i] < chosen[i].prob) := by
+  obtain ⟨params, hprep, hrun, _⟩ := e2es_decide_run h
+  obtain ⟨_, _, _, _, _, hch⟩ := (e2es_prepare_ok_iff req params _).mp hprep
+  obtain ⟨h1, h2⟩ := process_entries _ _ _ _ _ _ _ hrun
+  exact ⟨_, hch, choose_length _ _ _ hch, h1, h2⟩
+
+/-! ### (a) the pattern depends only on seed, position, probability -/
+
+/-- **the fired / not-fired pattern as a formula**: it is `draw < probability`, position by position, of the
+    enabled entries' probabilities and the stream of `biasApplyRandomSeed`; the stream is long enough.  Nothing
+    else of the request (method, problem, names, props, other seeds) and nothing the biases did enters. -/
+theorem fired_pattern_is_a_function_of_probabilities_and_draws {req : Request α} {g : Int → Draws α}
+    {resp : Response α} (h : decideWith exp o req g = .ok resp) :
+    (e2esProbs req).length ≤ (g req.biasSeed).length ∧
+    e2esFlags resp.biases = e2esPattern (e2esProbs req) (g req.biasSeed) :=
+  e2es_decide_pattern h
+
+/-- **N1(a), common prefix**: the pattern up to position `k` depends only on the first `k` probabilities and
+    the first `k` activation draws — two accepted requests (any methods, problems, names, props, other seeds,
+    exponentials, tie orders; anything after position `k`) that agree on those have the same first `k` flags -/
+theorem firing_prefix_depends_only_on_its_probabilities_and_draws {req₁ req₂ : Request α}
+    {g₁ g₂ : Int → Draws α} {resp₁ resp₂ : Response α}
+    (h₁ : decideWith exp₁ o₁ req₁ g₁ = .ok resp₁) (h₂ : decideWith exp₂ o₂ req₂ g₂ = .ok resp₂) (k : Nat)
+    (hp : (e2esProbs req₁).take k = (e2esProbs req₂).take k)
+    (hg : (g₁ req₁.biasSeed).take k = (g₂ req₂.biasSeed).take k) :
+    (e2esFlags resp₁.biases).take k = (e2esFlags resp₂.biases).take k := by
+  rw [(e2es_decide_pattern h₁).2, (e2es_decide_pattern h₂).2, e2esPattern_take, e2esPattern_take, hp, hg]
+
+/-- **N1(a)**: two accepted requests — possibly different methods, problems, bias names, other props, other
+    seeds — whose enabled entries have the same probabilities in the same order and whose activation streams
+    agree give responses with the same fired / not-fired pattern, position by position -/
+theorem firing_depends_only_on_seed_position_probability {req₁ req₂ : Request α}
+    {g₁ g₂ : Int → Draws α} {resp₁ resp₂ : Response α}
+    (h₁ : decideWith exp₁ o₁ req₁ g₁ = .ok resp₁) (h₂ : decideWith exp₂ o₂ req₂ g₂ = .ok resp₂)
+    (hp : e2esProbs req₁ = e2esProbs req₂) (hg : g₁ req₁.biasSeed = g₂ req₂.biasSeed) :
+    resp₁.biases.map (·.report.isSome) = resp₂.biases.map (·.report.isSome) := by
+  have := (e2es_decide_pattern h₁).2
+  have := (e2es_decide_pattern h₂).2
+  unfold e2esFlags at *
+  simp_all
+
+/-- … position by position -/
+theorem firing_depends_only_on_seed_position_probability_at {req₁ req₂ : Request α}
+    {g₁ g₂ : Int → Draws α} {resp₁ resp₂ : Response α}
+    (h₁ : decideWith exp₁ o₁ req₁ g₁ = .ok resp₁) (h₂ : decideWith exp₂ o₂ req₂ g₂ = .ok resp₂)
+    (hp : e2esProbs req₁ = e2esProbs req₂) (hg : g₁ req₁.biasSeed = g₂ req₂.biasSeed) (i : Nat) :
+    (resp₁.biases[i]?).map (·.report.isSome) = (resp₂.biases[i]?).map (·.report.isSome) := by
+  have := firing_depends_only_on_seed_position_probability h₁ h₂ hp hg
+  rw [← List.getElem?_map, ← List.getElem?_map, this]
+
+/-- … only the seeded stream matters: with the same seed table and the same `biasApplyRandomSeed` -/
+theorem firing_depends_only_on_seed_position_probability_decide {req₁ req₂ : Request α} {seeds : Seeds α}
+    {resp₁ resp₂ : Response α}
+    (h₁ : Rdm.decide exp₁ req₁ seeds = .ok resp₁) (h₂ : Rdm.decide exp₂ req₂ seeds = .ok resp₂)
+    (hp : e2esProbs req₁ = e2esProbs req₂) (hs : req₁.biasSeed = req₂.biasSeed) :
+    resp₁.biases.map (·.report.isSome) = resp₂.biases.map (·.report.isSome) :=
+  firing_depends_only_on_seed_position_probability h₁ h₂ hp (by rw [hs])
+
+/-! ### (b) disabled entries -/
+
+/-- **N1(b)**: removing the disabled entries from the request's bias list changes nothing — the outcomes are
+    equal as a whole (result, biases, final state; or the same error) -/
+theorem disabled_entries_are_invisible (req : Request α) (g : Int → Draws α) :
+    decideWith exp o { req with biases := req.biases.filter (!·.disabled) } g = decideWith exp o req g :=
+  e2es_decideWith_congr_biases exp o req g _ _ (disabled_equals_absent _ _).symm
+
+/-- … spelled out on an accepted request -/
+theorem disabled_entries_are_invisible_response {req : Request α} {g : Int → Draws α} {resp : Response α}
+    (h : decideWith exp o req g = .ok resp) :
+    ∃ resp', decideWith exp o { req with biases := req.biases.filter (!·.disabled) } g = .ok resp' ∧
+      resp'.result = resp.result ∧ resp'.biases = resp.biases ∧ resp'.final = resp.final :=
+  ⟨resp, by rw [disabled_entries_are_invisible, h], rfl, rfl, rfl⟩
+
+/-- a disabled entry may stand anywhere and be anything (unknown name, undecodable props, any probability):
+    the decision is the one of the request without it -/
+theorem a_disabled_entry_may_be_anything (req : Request α) (g : Int → Draws α)
+    (pre post : List (BiasReq α (BProps α))) (b : BiasReq α (BProps α)) (hd : b.disabled = true) :
+    decideWith exp o { req with biases := pre ++ b :: post } g
+      = decideWith exp o { req with biases := pre ++ post } g := by
+  apply e2es_decideWith_congr_biases
+  rw [disabled_equals_absent, disabled_equals_absent availableBiases (pre ++ post)]
+  congr 1
+  rw [List.filter_append, List.filter_append, List.filter_cons_of_neg (by simp [hd])]
+
+/-! ### (c) probability 0, probability 1, omitted probability -/
+
+/-- **N1(c)** omitting `applyProbability` is the same as giving the default of the code: filling the default
+    in explicitly, for every entry, changes nothing in the outcome -/
+theorem omitted_probability_means_default (req : Request α) (g : Int → Draws α) :
+    decideWith exp o { req with biases := req.biases.map fun b => { b with prob := some (e2esProb b) } } g
+      = decideWith exp o req g := by
+  apply e2es_decideWith_congr_biases
+  unfold chooseBiases
+  rw [List.filter_map, List.mapM_map]
+  rfl
+
+/-- … and over the rationals that default is 1 -/
+theorem omitted_probability_means_one (exp : Rat → Rat) (o : List (WCrit Rat) → List (WCrit Rat))
+    (req : Request Rat) (g : Int → Draws Rat) :
+    decideWith exp o { req with biases := req.biases.map fun b => { b with prob := some (b.prob.getD 1) } } g
+      = decideWith exp o req g := by
+  have := omitted_probability_means_default (exp := exp) (o := o) req g
+  unfold e2esProb at this
+  rw [default_probability_is_one] at this
+  exact this
+
+/-- **N1(c)** probability 0 never fires: for activation draws in [0,1) (only `0 ≤ draw` is needed) an enabled
+    entry with `applyProbability = 0` is answered with `props: null` -/
+theorem probability_zero_never_fires {exp : Rat → Rat} {o : List (WCrit Rat) → List (WCrit Rat)}
+    {req : Request Rat} {g : Int → Draws Rat} {resp : Response Rat}
+    (h : decideWith exp o req g = .ok resp) (hd : ∀ u ∈ g req.biasSeed, 0 ≤ u ∧ u < 1)
+    (i : Nat) (b : BiasReq Rat (BProps Rat)) (hb : (e2esEnabled req)[i]? = some b) (hp : b.prob = some 0) :
+    ∃ out, resp.biases[i]? = some out ∧ out.name = b.name ∧ out.prob = 0 ∧ out.report = none := by
+  obtain ⟨out, u, ho, hu, hn, hpr, hf⟩ := (e2es_decide_entries h).2 i b hb
+  have hpb : e2esProb b = 0 := by unfold e2esProb; rw [hp]; rfl
+  rw [hpb] at hpr hf
+  have hu0 := (hd u (List.mem_of_getElem? hu)).1
+  have : ¬ u < 0 := Rat.not_lt.mpr hu0
+  refine ⟨out, ho, hn, hpr, ?_⟩
+  cases hr : out.report with
+  | none => rfl
+  | some r => rw [hr] at hf; simp [this] at hf
+
+/-- **N1(c)** probability 1 always fires: for activation draws in [0,1) (only `draw < 1` is needed) an enabled
+    entry with `applyProbability = 1` is answered with a report -/
+theorem probability_one_always_fires {exp : Rat → Rat} {o : List (WCrit Rat) → List (WCrit Rat)}
+    {req : Request Rat} {g : Int → Draws Rat} {resp : Response Rat}
+    (h : decideWith exp o req g = .ok resp) (hd : ∀ u ∈ g req.biasSeed, 0 ≤ u ∧ u < 1)
+    (i : Nat) (b : BiasReq Rat (BProps Rat)) (hb : (e2esEnabled req)[i]? = some b) (hp : b.prob = some 1) :
+    ∃ out rep, resp.biases[i]? = some out ∧ out.name = b.name ∧ out.prob = 1 ∧ out.report = some rep := by
+  obtain ⟨out, u, ho, hu, hn, hpr, hf⟩ := (e2es_decide_entries h).2 i b hb
+  have hpb : e2esProb b = 1 := by unfold e2esProb; rw [hp]; rfl
+  rw [hpb] at hpr hf
+  have hu1 := (hd u (List.mem_of_getElem? hu)).2
+  cases hr : out.report with
+  | none => rw [hr] at hf; simp [hu1] at hf
+  | some r => exact ⟨out, r, ho, hn, hpr, hr⟩
+
+/-- **N1(c)** an entry without `applyProbability` always fires for draws in [0,1), and echoes probability 1 -/
+theorem omitted_probability_always_fires {exp : Rat → Rat} {o : List (WCrit Rat) → List (WCrit Rat)}
+    {req : Request Rat} {g : Int → Draws Rat} {resp : Response Rat}
+    (h : decideWith exp o req g = .ok resp) (hd : ∀ u ∈ g req.biasSeed, 0 ≤ u ∧ u < 1)
+    (i : Nat) (b : BiasReq Rat (BProps Rat)) (hb : (e2esEnabled req)[i]? = some b) (hp : b.prob = none) :
+    ∃ out rep, resp.biases[i]? = some out ∧ out.name = b.name ∧ out.prob = 1 ∧ out.report = some rep := by
+  obtain ⟨out, u, ho, hu, hn, hpr, hf⟩ := (e2es_decide_entries h).2 i b hb
+  have hpb : e2esProb b = 1 := by unfold e2esProb; rw [hp]; exact default_probability_is_one
+  rw [hpb] at hpr hf
+  have hu1 := (hd u (List.mem_of_getElem? hu)).2
+  cases hr : out.report with
+  | none => rw [hr] at hf; simp [hu1] at hf
+  | some r => exact ⟨out, r, ho, hn, hpr, hr⟩
+
+/-! ### (d) monotone in the probability -/
+
+/-- **N1(d), general form**: two accepted requests (anything else may differ) with the same activation stream
+    and as many enabled entries, the probabilities of the second at least those of the first, position by
+    position: every position that fired in the first fired in the second, and wherever the two probabilities
+    are equal the flags are equal -/
+theorem firing_is_monotone_in_the_probability {exp₁ exp₂ : Rat → Rat}
+    {o₁ o₂ : List (WCrit Rat) → List (WCrit Rat)} {req₁ req₂ : Request Rat} {g₁ g₂ : Int → Draws Rat}
+    {resp₁ resp₂ : Response Rat}
+    (h₁ : decideWith exp₁ o₁ req₁ g₁ = .ok resp₁) (h₂ : decideWith exp₂ o₂ req₂ g₂ = .ok resp₂)
+    (hg : g₁ req₁.biasSeed = g₂ req₂.biasSeed)
+    (hle : ∀ (j : Nat) (p₁ p₂ : Rat), (e2esProbs req₁)[j]? = some p₁ → (e2esProbs req₂)[j]? = some p₂ → p₁ ≤ p₂)
+    (j : Nat) (f₁ f₂ : Bool) (hf₁ : (e2esFlags resp₁.biases)[j]? = some f₁)
+    (hf₂ : (e2esFlags resp₂.biases)[j]? = some f₂) :
+    (f₁ = true → f₂ = true) ∧ ((e2esProbs req₁)[j]? = (e2esProbs req₂)[j]? → f₁ = f₂) := by
+  rw [(e2es_decide_pattern h₁).2, e2esPattern_getElem?] at hf₁
+  rw [(e2es_decide_pattern h₂).2, e2esPattern_getElem?, ← hg] at hf₂
+  cases hp₁ : (e2esProbs req₁)[j]? with
+  | none => rw [hp₁] at hf₁; cases hf₁
+  | some p₁ =>
+    cases hp₂ : (e2esProbs req₂)[j]? with
+    | none => rw [hp₂] at hf₂; cases hf₂
+    | some p₂ =>
+      cases hu : (g₁ req₁.biasSeed)[j]? with
+      | none => rw [hp₁, hu] at hf₁; cases hf₁
+      | some u =>
+        rw [hp₁, hu] at hf₁
+        rw [hp₂, hu] at hf₂
+        simp only [Option.some.injEq] at hf₁ hf₂
+        subst hf₁ hf₂
+        refine ⟨?_, ?_⟩
+        · intro hf
+          have hlt : u < p₁ := of_decide_eq_true hf
+          exact decide_eq_true (fires_monotone u p₁ p₂ (hle j p₁ p₂ hp₁ hp₂) hlt)
+        · intro he
+          simp only [Option.some.injEq] at he
+          rw [he]
+
+/-- **N1(d)**: raising the probability of ONE enabled entry (everything else the same, same streams) — if
+    both decisions succeed — can only turn that entry from not-fired to fired; the flags of all earlier
+    entries and of all later entries are unchanged (the activation draws do not depend on the state) -/
+theorem raising_one_probability_only_turns_that_entry_on {exp : Rat → Rat}
+    {o : List (WCrit Rat) → List (WCrit Rat)} {req : Request Rat} {g : Int → Draws Rat}
+    {pre post : List (BiasReq Rat (BProps Rat))} {b : BiasReq Rat (BProps Rat)} {p' : Rat}
+    {resp₁ resp₂ : Response Rat}
+    (hreq : req.biases = pre ++ b :: post) (hen : b.disabled = false) (hp : e2esProb b ≤ p')
+    (h₁ : decideWith exp o req g = .ok resp₁)
+    (h₂ : decideWith exp o { req with biases := pre ++ { b with prob := some p' } :: post } g = .ok resp₂) :
+    (∀ j, j ≠ (pre.filter (!·.disabled)).length →
+      (e2esFlags resp₁.biases)[j]? = (e2esFlags resp₂.biases)[j]?) ∧
+    ((e2esFlags resp₁.biases)[(pre.filter (!·.disabled)).length]? = some true →
+      (e2esFlags resp₂.biases)[(pre.filter (!·.disabled)).length]? = some true) := by
+  have e₁ : e2esProbs req =
+      (pre.filter (!·.disabled)).map e2esProb ++ e2esProb b :: (post.filter (!·.disabled)).map e2esProb := by
+    unfold e2esProbs e2esEnabled
+    rw [hreq, e2es_enabled_split pre post b hen, List.map_append, List.map_cons]
+  have e₂ : e2esProbs { req with biases := pre ++ { b with prob := some p' } :: post } =
+      (pre.filter (!·.disabled)).map e2esProb ++ p' :: (post.filter (!·.disabled)).map e2esProb := by
+    unfold e2esProbs e2esEnabled
+    dsimp only
+    rw [e2es_enabled_split pre post _ (by exact hen), List.map_append, List.map_cons]
+    rfl
+  have hl : ((pre.filter (!·.disabled)).map e2esProb).length = (pre.filter (!·.disabled)).length :=
+    List.length_map _
+  have hlen : (e2esFlags resp₁.biases).length = (e2esFlags resp₂.biases).length := by
+    have a := (response_echoes_the_probability h₁).2.2
+    have c := (response_echoes_the_probability h₂).2.2
+    have a' := congrArg List.length a
+    have c' := congrArg List.length c
+    rw [e₁] at a'
+    rw [e₂] at c'
+    simp only [List.length_map, List.length_append, List.length_cons, e2esFlags] at a' c' ⊢
+    omega
+  have key := fun j f₁ f₂ => firing_is_monotone_in_the_probability h₁ h₂ rfl (by
+    intro j p₁ p₂ h1 h2
+    rw [e₁] at h1
+    rw [e₂] at h2
+    by_cases hj : j = ((pre.filter (!·.disabled)).map e2esProb).length
+    · subst hj
+      rw [e2es_getElem?_replace_eq] at h1 h2
+      cases h1; cases h2; exact hp
+    · rw [e2es_getElem?_replace_ne _ _ _ p' j hj, h2] at h1
+      cases h1; exact Rat.le_refl) j f₁ f₂
+  constructor
+  · intro j hj
+    cases hf₁ : (e2esFlags resp₁.biases)[j]? with
+    | none =>
+      have : (e2esFlags resp₁.biases).length ≤ j := List.getElem?_eq_none_iff.mp hf₁
+      exact (List.getElem?_eq_none_iff.mpr (by omega)).symm
+    | some f₁ =>
+      have hj1 : j < (e2esFlags resp₁.biases).length := (List.getElem?_eq_some_iff.mp hf₁).1
+      have hj2 : j < (e2esFlags resp₂.biases).length := by omega
+      have hf₂ := List.getElem?_eq_getElem hj2
+      have := (key j f₁ _ hf₁ hf₂).2 (by
+        rw [e₁, e₂]
+        exact e2es_getElem?_replace_ne _ _ _ _ j (by rw [hl]; exact hj))
+      rw [hf₂, this]
+  · intro hf₁
+    have hj1 := (List.getElem?_eq_some_iff.mp hf₁).1
+    have hj2 : (pre.filter (!·.disabled)).length < (e2esFlags resp₂.biases).length := by omega
+    have hf₂ := List.getElem?_eq_getElem hj2
+    have := (key _ true _ hf₁ hf₂).1 rfl
+    rw [hf₂, this]
+
+/-! ### frequency -/
+
+/-- **the frequency clause, as far as the model carries it**: run the same request with the seeds `ss` as
+    `biasApplyRandomSeed` (all runs accepted).  The number of runs in which the `i`-th enabled entry fired is the
+    number of seeds whose stream has its `i`-th number below the entry's probability `p` — so the entry fires
+    with frequency `p` exactly as far as the `i`-th numbers of `utils.RandomBasedSeedValueGenerator(seed)` are
+    uniform on [0,1) over the seeds (a property of `math/rand`, outside the model; measured by the harness). -/
+theorem firing_frequency_is_the_frequency_of_draws_below_probability {req : Request α} {g : Int → Draws α}
+    (ss : List Int) (resp : Int → Response α)
+    (h : ∀ s ∈ ss, decideWith exp o { req with biasSeed := s } g = .ok (resp s))
+    (i : Nat) (p : α) (hp : (e2esProbs req)[i]? = some p) :
+    ss.countP (fun s => (e2esFlags (resp s).biases)[i]? == some true) =
+      ss.countP (fun s => ((g s)[i]?.map fun u => decide (u < p)) == some true) := by
+  apply List.countP_congr
+  intro s hs
+  have hpat := (e2es_decide_pattern (h s hs)).2
+  have hprobs : e2esProbs { req with biasSeed := s } = e2esProbs req := rfl
+  rw [hpat, hprobs, e2esPattern_getElem?, hp]
+  show _ ↔ (((g s)[i]?.map fun u => decide (u < p)) == some true) = true
+  cases (g s)[i]? <;> simp
+
+/-! ### a bias that does not fire changes nothing -/
+
+/-- an entry answered with `props: null` hands the state it received on unchanged: the run of the loop over
+    the entries before it ends in the very state `s` the run over the entries after it starts from -/
+theorem unfired_entry_hands_the_state_on_unchanged {req : Request α} {g : Int → Draws α} {resp : Response α}
+    (h : decideWith exp o req g = .ok resp) (i : Nat) (out : BiasOut α (Report α))
+    (hi : resp.biases[i]? = some out) (hn : out.report = none) :
+    ∃ params chosen s, prepare req = .ok (params, chosen) ∧
+      processLoop (applyBias exp g) params (chosen.take i) params (g req.biasSeed)
+        = .ok (s, resp.biases.take i) ∧
+      processLoop (applyBias exp g) params (chosen.drop (i + 1)) s ((g req.biasSeed).drop (i + 1))
+        = .ok (resp.final, resp.biases.drop (i + 1)) := by
+  obtain ⟨params, chosen, hprep, hrun, _⟩ := e2eb_decide_run h
+  obtain ⟨b, u, s, s', _, _, hpre, ⟨_, _, hstep⟩, hpost⟩ := e2eb_loop_split _ _ _ _ _ hrun i out hi
+  rw [hn] at hstep
+  obtain ⟨_, rfl⟩ := hstep
+  exact ⟨params, chosen, s', hprep, hpre, hpost⟩
+
+/-- **"a bias that does not fire changes nothing", end to end**: erase an enabled entry that was answered with
+    `props: null` from the request and erase its activation draw from the stream of `biasApplyRandomSeed`
+    (every other stream the request names kept): the decision is the same — same result, same final state, the
+    same `biases` list without that entry.  (Together with `disabled_entries_are_invisible`: an entry that
+    does not fire is, up to the draw it consumes, a disabled entry.) -/
+theorem unfired_entry_equals_removed_entry {req : Request α} {g g' : Int → Draws α} {resp : Response α}
+    (h : decideWith exp o req g = .ok resp) (i : Nat) (out : BiasOut α (Report α))
+    (hi : resp.biases[i]? = some out) (hn : out.report = none)
+    (hg' : g' req.biasSeed = (g req.biasSeed).eraseIdx i)
+    (hbs : ∀ b ∈ req.biases, ∀ k ∈ b.props.seeds, g' k = g k)
+    (hmp : ∀ mp, req.mp = some mp → ∀ k ∈ mp.seed.toList, g' k = g k) :
+    decideWith exp o { req with biases := (e2esEnabled req).eraseIdx i } g'
+      = .ok ⟨resp.result, resp.biases.eraseIdx i, resp.final⟩ :=
+  e2es_decide_erase_unfired h hi hn hg' hbs hmp
+
+end EndToEnd
+
+/-! ### the hypotheses are satisfiable: concrete requests (Lemmas/E2EExamples.lean, E2EServiceExamples.lean) -/
+
+section Examples
+
+/-- (a) a weighted-sum request and a majority-heuristic request (another method, other parameters) with the
+    same bias probabilities and the same `biasApplyRandomSeed`: both are answered, with the same pattern
+    fired / not fired — and the pattern is the formula on the probabilities [1, 1/2] and the draws [1/4, 3/4] -/
+example : ∃ r₁ r₂, Rdm.decide id e2eExWs e2eExSeeds = .ok r₁ ∧ Rdm.decide id e2eExMaj e2eExSeeds = .ok r₂ ∧
+    r₁.biases.map (·.report.isSome) = r₂.biases.map (·.report.isSome) ∧
+    e2esFlags r₁.biases = [true, false] := by
+  obtain ⟨r₁, h₁⟩ := e2e_ok_of_isOk (x := Rdm.decide id e2eExWs e2eExSeeds) (by decide +kernel)
+  obtain ⟨r₂, h₂⟩ := e2e_ok_of_isOk (x := Rdm.decide id e2eExMaj e2eExSeeds) (by decide +kernel)
+  refine ⟨r₁, r₂, h₁, h₂, firing_depends_only_on_seed_position_probability_decide h₁ h₂ rfl rfl, ?_⟩
+  rw [(fired_pattern_is_a_function_of_probabilities_and_draws h₁).2]
+  decide +kernel
+
+/-- (b), (e) the request without its disabled entry is answered like the request itself; two entries, names and
+    probabilities (default 1, and 1/2) echoed -/
+example : ∃ r, Rdm.decide id { e2eExWs with biases := e2eExWs.biases.filter (!·.disabled) } e2eExSeeds = .ok r ∧
+    Rdm.decide id e2eExWs e2eExSeeds = .ok r ∧
+    r.biases.map (·.name) = [Facts.biasFatigue, Facts.biasReversal] ∧ r.biases.map (·.prob) = [1, 1 / 2] := by
+  obtain ⟨r, h⟩ := e2e_ok_of_isOk (x := Rdm.decide id e2eExWs e2eExSeeds) (by decide +kernel)
+  obtain ⟨_, hn, hp⟩ := response_echoes_the_probability h
+  refine ⟨r, ?_, h, ?_, ?_⟩
+  · unfold Rdm.decide at h ⊢
+    rw [disabled_entries_are_invisible, h]
+  · rw [hn]; decide
+  · rw [hp]; decide +kernel
+
+/-- (c) the fatigue of the example request with probability 0: answered with `props: null` -/
+example : ∃ r out, Rdm.decide id (e2esExWsP (some 0)) e2eExSeeds = .ok r ∧ r.biases[0]? = some out ∧
+    out.prob = 0 ∧ out.report = none := by
+  obtain ⟨r, h⟩ := e2e_ok_of_isOk (x := Rdm.decide id (e2esExWsP (some 0)) e2eExSeeds) (by decide +kernel)
+  obtain ⟨out, ho, _, hp, hr⟩ := probability_zero_never_fires h (by decide +kernel) 0 (e2esExFatigue (some 0)) rfl rfl
+  exact ⟨r, out, h, ho, hp, hr⟩
+
+/-- (c) with probability 1, and with the probability omitted: it fires -/
+example : ∃ r out rep, Rdm.decide id (e2esExWsP (some 1)) e2eExSeeds = .ok r ∧ r.biases[0]? = some out ∧
+    out.prob = 1 ∧ out.report = some rep := by
+  obtain ⟨r, h⟩ := e2e_ok_of_isOk (x := Rdm.decide id (e2esExWsP (some 1)) e2eExSeeds) (by decide +kernel)
+  obtain ⟨out, rep, ho, _, hp, hr⟩ :=
+    probability_one_always_fires h (by decide +kernel) 0 (e2esExFatigue (some 1)) rfl rfl
+  exact ⟨r, out, rep, h, ho, hp, hr⟩
+
+example : ∃ r out rep, Rdm.decide id e2eExWs e2eExSeeds = .ok r ∧ r.biases[0]? = some out ∧
+    out.prob = 1 ∧ out.report = some rep := by
+  obtain ⟨r, h⟩ := e2e_ok_of_isOk (x := Rdm.decide id e2eExWs e2eExSeeds) (by decide +kernel)
+  obtain ⟨out, rep, ho, _, hp, hr⟩ :=
+    omitted_probability_always_fires h (by decide +kernel) 0 (e2esExFatigue none) rfl rfl
+  exact ⟨r, out, rep, h, ho, hp, hr⟩
+
+/-- (d) the fatigue's probability raised from 1/8 (below the draw 1/4: not fired) to 1/2 (fired): both requests
+    are answered; the reversal's flag (position 1) is the same in both -/
+example : ∃ r₁ r₂, Rdm.decide id (e2esExWsP (some (1 / 8))) e2eExSeeds = .ok r₁ ∧
+    Rdm.decide id (e2esExWsP (some (1 / 2))) e2eExSeeds = .ok r₂ ∧
+    e2esFlags r₁.biases = [false, false] ∧ e2esFlags r₂.biases = [true, false] ∧
+    (e2esFlags r₁.biases)[1]? = (e2esFlags r₂.biases)[1]? := by
+  obtain ⟨r₁, h₁⟩ := e2e_ok_of_isOk (x := Rdm.decide id (e2esExWsP (some (1 / 8))) e2eExSeeds) (by decide +kernel)
+  obtain ⟨r₂, h₂⟩ := e2e_ok_of_isOk (x := Rdm.decide id (e2esExWsP (some (1 / 2))) e2eExSeeds) (by decide +kernel)
+  have hm := raising_one_probability_only_turns_that_entry_on (req := e2esExWsP (some (1 / 8)))
+    (pre := []) (post := [e2esExReversal, e2esExDisabled]) (b := e2esExFatigue (some (1 / 8))) (p' := 1 / 2)
+    rfl rfl (by decide +kernel) h₁ h₂
+  refine ⟨r₁, r₂, h₁, h₂, ?_, ?_, hm.1 1 (by decide)⟩
+  · rw [(fired_pattern_is_a_function_of_probabilities_and_draws h₁).2]; decide +kernel
+  · rw [(fired_pattern_is_a_function_of_probabilities_and_draws h₂).2]; decide +kernel
+
+/-- the reversal of the example request did not fire (position 1): without it, and with the second activation
+    draw erased from the stream of seed 5, the decision is the same -/
+example : ∃ r, Rdm.decide id e2eExWs e2eExSeeds = .ok r ∧
+    Rdm.decide id { e2eExWs with biases := [e2esExFatigue none] } e2esExSeedsErased
+      = .ok ⟨r.result, r.biases.eraseIdx 1, r.final⟩ := by
+  obtain ⟨r, h⟩ := e2e_ok_of_isOk (x := Rdm.decide id e2eExWs e2eExSeeds) (by decide +kernel)
+  obtain ⟨out, u, ho, hu', _, _, hf⟩ := response_entry_fires_iff_draw_below_probability h 1 e2esExReversal rfl
+  have hu : (genOf e2eExSeeds e2eExWs.biasSeed)[1]? = some (3 / 4 : Rat) := by decide +kernel
+  have hn : out.report = none := by
+    rw [hu] at hu'
+    cases hu'
+    cases hr : out.report with
+    | none => rfl
+    | some rep =>
+      rw [hr] at hf
+      have : decide ((3 / 4 : Rat) < e2esProb e2esExReversal) = false := by decide +kernel
+      rw [this] at hf
+      cases hf
+  exact ⟨r, h, unfired_entry_equals_removed_entry (g' := genOf e2esExSeedsErased) h 1 out ho hn
+    (by decide +kernel) (by decide +kernel) (by decide +kernel)⟩
+
+/-- the frequency clause on the example request run with the single seed 5: the reversal (position 1,
+    probability 1/2) fired in as many runs as there are seeds whose second number is below 1/2 — none -/
+example : ∃ r, Rdm.decide id e2eExWs e2eExSeeds = .ok r ∧
+    [(5 : Int)].countP (fun _ => (e2esFlags r.biases)[1]? == some true) = 0 := by
+  obtain ⟨r, h⟩ := e2e_ok_of_isOk (x := Rdm.decide id e2eExWs e2eExSeeds) (by decide +kernel)
+  refine ⟨r, h, ?_⟩
+  rw [firing_frequency_is_the_frequency_of_draws_below_probability (req := e2eExWs) (g := genOf e2eExSeeds)
+    [5] (fun _ => r) (by intro s hs; cases List.mem_singleton.mp hs; exact h) 1 (1 / 2) (by decide +kernel)]
+  decide +kernel
+
+end Examples
 
 end Rdm.Props.C08
